@@ -560,7 +560,15 @@ fn check_in(base: &Path, case: &Case, obs: &mut Obs) -> CaseResult {
         let doc = document(&dir.display().to_string(), lc, case.style.rotate_left(fi as u32 * 7));
         let text = format.render(&doc, case.style);
         let file = dir.join(format!("cfg.{}", format.ext()));
-        std::fs::write(&file, &text).unwrap();
+        if (case.style >> (41 + fi)) & 1 == 1 {
+            // the configured path is a symbolic link; what it points to is named differently (a versioned file)
+            let target = format!("cfg.published-v{}", 2 + fi);
+            std::fs::write(dir.join(&target), &text).unwrap();
+            std::os::unix::fs::symlink(&target, &file).unwrap();
+            obs.class("configured-path-is-a-symlink-to-a-differently-named-file");
+        } else {
+            std::fs::write(&file, &text).unwrap();
+        }
         let what = format!("{:?} document", format);
         // strict path: serde parse -> appenders_lossy without errors -> build
         let raw: RawConfig = match catch(|| parse_raw(*format, &text)) {
@@ -1146,7 +1154,7 @@ pub fn replay(part: &str, case: serde_json::Value) -> Option<CaseResult> {
 pub fn meta() -> EvidenceMeta {
     EvidenceMeta {
         level: "exploration",
-        rule: "part documents: logical configurations (cfgtree routing; 1-5 appenders of kinds file / rolling_file (size, time, onstartup triggers; delete or fixed_window rollers incl. .gz and directory patterns; policy kind present/omitted) / console (presence only); encoders pattern (kind key and pattern present/omitted) or json; 0-2 threshold filters per appender; optional refresh_rate; every defaultable key present or omitted; level words in three letter cases) rendered by three hand-written emitters (YAML block/flow mix, JSON, TOML inline/section/sub-section mix) with generated key order; oracle: serde parse and load_config_file succeed, refresh rate and Config accessors equal the logical configuration, and after 15-25 probe records the directory snapshot (clock/thread fields normalised, archives decompressed) equals that of a programmatic twin built with the public builders and documented defaults, for each of the three formats; file appenders are additionally compared with the route()+filter model. part mutants: one mutation of a rendered document (unknown key in document/root/logger/appender/encoder/policy/trigger/roller, wrong-typed value, unknown kind, missing required field, broken filter, dangling appender name, degenerate numerics) in a generated format; oracle by layer: document-level => rejected by both paths; component-level => document parses, strict path reports an error naming exactly that appender, lossy loading returns the configuration without it (references stripped / filter dropped) and its behaviour equals the twin without the broken part; dangling => strict fails naming it, lossy strips; degenerate numerics => no panic at load or while logging. Ten clock-free patterns (empty, line breaks after {n}, blanks, nested groups); unknown keys carry a number, null, empty string, empty list or empty map; probes alternate between records with and without module path/file/line; the strict path is log4rs::config::create_raw_config. non-trivial = >= 2 appender kinds with a defaulted key (documents); any mutation below the document layer (mutants)".into(),
+        rule: "part documents: logical configurations (cfgtree routing; 1-5 appenders of kinds file / rolling_file (size, time, onstartup triggers; delete or fixed_window rollers incl. .gz and directory patterns; policy kind present/omitted) / console (presence only); encoders pattern (kind key and pattern present/omitted) or json; 0-2 threshold filters per appender; optional refresh_rate; every defaultable key present or omitted; level words in three letter cases) rendered by three hand-written emitters (YAML block/flow mix, JSON, TOML inline/section/sub-section mix) with generated key order; oracle: serde parse and load_config_file succeed, refresh rate and Config accessors equal the logical configuration, and after 15-25 probe records the directory snapshot (clock/thread fields normalised, archives decompressed) equals that of a programmatic twin built with the public builders and documented defaults, for each of the three formats (the configured path may be a symbolic link to a file with another extension: the format is that of the configured name); file appenders are additionally compared with the route()+filter model. part mutants: one mutation of a rendered document (unknown key in document/root/logger/appender/encoder/policy/trigger/roller, wrong-typed value, unknown kind, missing required field, broken filter, dangling appender name, degenerate numerics) in a generated format; oracle by layer: document-level => rejected by both paths; component-level => document parses, strict path reports an error naming exactly that appender, lossy loading returns the configuration without it (references stripped / filter dropped) and its behaviour equals the twin without the broken part; dangling => strict fails naming it, lossy strips; degenerate numerics => no panic at load or while logging. Ten clock-free patterns (empty, line breaks after {n}, blanks, nested groups); unknown keys carry a number, null, empty string, empty list or empty map; probes alternate between records with and without module path/file/line; the strict path is log4rs::config::create_raw_config. non-trivial = >= 2 appender kinds with a defaulted key (documents); any mutation below the document layer (mutants)".into(),
         assumptions: vec![
             "root level default and loggers without a level are not generated (documentation and code disagree / statement silent)".into(),
             "console appenders are declared but attached only to a logger that is off (their bytes are C18's business)".into(),
